@@ -384,6 +384,10 @@ def run(ctx):
         # ---- f  the integer decoder every parser relies on (same analysis as C20-a..c)
         from . import c20
         c20.decoder(ck, prog, config, ca='C03-f', cb='C03-f', cc='C03-f', cd='C03-f')
+        # ---- i  bytes read from a descriptor into a block allocated in the same function fit the block
+        from ..rules import extent
+        nx = extent.check_buffer_extents(ck, prog, config, 'C03-i')
+        ck.min_instances('descriptor reads into same-function allocations', nx, 3)
         # ---- e
         for name, table in (('zck_comp_name_from_type', 'COMP_NAME'), ('zck_hash_name_from_type', 'HASH_NAME')):
             fn = prog.need_func(name)
